@@ -19,7 +19,7 @@ class C16(PropBase):
     corr_fields = ['df']
     lean_modules = ["SqModel.Props.C16", "SqModel.Proofs.BridgeTable"]
     rule = ("streams of 40-120 lines mixing all formats (incl. zero-address frames, squitters with damaged parity and junk) "
-            "for 3 aircraft; -f over random subsets of {0,4,5,11,16,17,18,20,21,24} plus none/all/single; -c on/off. Counter "
+            "for 3 aircraft; -f over random subsets of {0,4,5,11,16,17,18,20,21,24} plus none/all/single; -c on/off; -M lists overlapping -f partly in half of the cases. Counter "
             "line of the real display (last 'DFn:count' line printed during the reader run) against the count of generated "
             "accepted frames per DF and against the model; table with -f against the table of the stream restricted to the "
             "listed formats; the same with a silent aircraft due to expire and 12-30 rejected frames among 1-8 listed ones (rejected frames must not advance the sweep). Non-trivial = at least one frame counted / filtered out; distinct by stream and option set.")
@@ -54,12 +54,14 @@ class C16(PropBase):
             count = (c % 5) != 4
             u = bool(c % 2)
             lines = [l for l, _ in st]
-            ops = ["reset", gen.cfg_op(use_update=u, count=count, filter=flt, show=1, groups="e", delete_after=600), "case a"] + gen.seg(lines) + ["dump"]
+            # -M (log frames of the named formats) in half of the cases, overlapping -f only partly: logging a frame decides nothing
+            logm = "-" if c % 2 == 0 else ",".join(str(x) for x in rng.sample(universe + [19, 31], rng.randrange(1, 6)))
+            ops = ["reset", gen.cfg_op(use_update=u, count=count, filter=flt, show=1, groups="e", delete_after=600, logm=logm, elog=int(c % 4 == 1)), "case a"] + gen.seg(lines) + ["dump"]
             kept = [l for l, d in st if d is not None and (flt is None or d in flt)]
             ops += ["reset", gen.cfg_op(use_update=u, count=False, filter=None, show=0, delete_after=600), "case b"] + gen.seg(kept) + ["dump"]
             impl, so, model = run.execute(ops, model=driver_ok)
             rep.evaluations += len(lines); rep.traces += 1
-            ctx = {"filter": flt, "count": count, "use_update": u}
+            ctx = {"filter": flt, "count": count, "use_update": u, "log_messages": logm}
             self.corr(rep, impl, model, ctx, ops)
             exp = {}
             for l, d in st:
